@@ -27,7 +27,8 @@ _TOKS = {}
 def tok(fl, nt=2, small=True, ppqn=24):
     k = (tuple(fl), nt, small, ppqn)
     if k not in _TOKS:
-        kw = dict(pitch_range=(60, 61), note_values=[12, 24], step_sizes=[12, 24], time_signature_range=(3, 4)) if small else {}
+        kw = dict(pitch_range=(60, 61), note_values=[12, 24], step_sizes=[12, 24], time_signature_range=(3, 4)) if small else \
+            dict(pitch_range=(0, 127))       # the full MIDI range, both limits included
         if ppqn != 24:
             kw["ppqn"] = ppqn
         _TOKS[k] = Tok(num_tracks=nt, velocity_bins=1, flag_running_values=fl[0], flag_fuse_track=fl[1],
